@@ -65,6 +65,7 @@ class C14(Plugin):
     entry = 14
     prop = 14
     counts = {"quick": 900, "thorough": 80000}
+    runtime_validators = ["tools/textlayer/validate_json.py", "tools/textlayer/validate_jsondoc.py", "tools/textlayer/validate_shacl.py"]
     rule = ("case = (strict converter, format in {extended prefix map, JSON-LD context, SHACL, TSV}, include_synonyms, expand); the converter is "
             "built by the constructor, by add_record one by one, or by add_prefix + merges of the synonyms, then written with the library's writer to a real file and read back with the library's loader (rdflib's Turtle parser and SPARQL for SHACL). "
             "EPM content over arbitrary Unicode (U+2028, NUL, quotes, backslash, astral); JSON-LD over non-empty prefixes not starting with '@'; "
